@@ -470,9 +470,140 @@ fn port_demobilize(rep: &mut Report, seed: u64) {
     }
 }
 
+/// Through a real peer-to-peer port that is not (or no longer) slave: peer delay exchanges keep
+/// running in every port state and their measurements reach the port's (fresh) Kalman servo;
+/// that servo must stay silent on the clock (at most the one final command of the old servo).
+fn port_p2p_nonslave(rep: &mut Report, seed: u64) {
+    use statime::observability::port::PortState;
+    let replay = json!({"port_p2p_nonslave_seed": seed});
+    let mut rng = StdRng::seed_from_u64(seed);
+    let mut b = Build::new(5);
+    b.p2p = true;
+    b.filter = Some(FilterCfg::Kalman(KalmanConfiguration::default()));
+    b.seed = seed;
+    let start = rng.gen_range(0..3u8);
+    let Ok(built) = b.build() else { return };
+    let mut node = built.node;
+    let mut remote = Remote::new(7, 1);
+    let clock = node.clock.clone();
+    let mut t = 3_000 * SEC;
+    clock.lock().unwrap().set_true(t);
+    let (oc, op) = node.port_identity_bytes(0);
+    let own = Pid { clock: oc, port: op };
+    let responder = Src::new(clock_id(20).0, 1);
+
+    // one complete single-responder exchange at the current time; returns false if the port died
+    let mut exchange = |node: &mut Node, t: &mut u128, rng: &mut StdRng| -> bool {
+        *t += rng.gen_range(1..(1u128 << 36));
+        clock.lock().unwrap().set_true(*t);
+        let Ok(acts) = node.call(0, Call::DelayRequestTimer) else { return false };
+        for a in acts {
+            if let Act::SendEvent { ctx: Some(ctx), data, .. } = a {
+                let Ok(m) = Msg::decode(&data) else { continue };
+                if m.hdr.msg_type != T_PDELAY_REQ {
+                    continue;
+                }
+                let t1 = *t;
+                let d = rng.gen_range(0..2_000_000u128) << 32;
+                let t2 = t1 + d;
+                let t3 = t2 + (rng.gen_range(0..1_000_000u128) << 32);
+                let t4 = t3 + d;
+                if node.call(0, Call::TxTimestamp(ctx, time_from_units(t1))).is_err() {
+                    return false;
+                }
+                let ts = |u: u128| Ts { secs: ((u >> 32) / 1_000_000_000) as u64, nanos: ((u >> 32) % 1_000_000_000) as u32 };
+                let two_step = rng.gen_bool(0.5);
+                let r = responder.pdelay_resp(m.hdr.seq, two_step, ts(t2), own, if two_step { 0 } else { ((t3 - t2) >> 16) as i64 });
+                *t = t4;
+                clock.lock().unwrap().set_true(*t);
+                if node.call(0, Call::EventRx(r.encode(), time_from_units(t4))).is_err() {
+                    return false;
+                }
+                if two_step {
+                    let f = responder.pdelay_resp_fu(m.hdr.seq, ts(t3), own, 0);
+                    if node.call(0, Call::GeneralRx(f.encode())).is_err() {
+                        return false;
+                    }
+                }
+            }
+        }
+        !node.dead
+    };
+
+    let setup = match start {
+        0 => Ok(()),
+        1 => force_master(&mut node, 0).map(|_| ()),
+        _ => make_slave(&mut node, 0, &mut remote).map(|_| ()),
+    };
+    if setup.is_err() {
+        return;
+    }
+    let mut allowed = 0usize;
+    let mut before_leave = None;
+    if start == 2 {
+        if node.port_state(0) != PortState::Slave {
+            return;
+        }
+        // slave phase: syncs and peer delay exchanges feed the servo
+        for k in 0..rng.gen_range(2..12u16) {
+            if !exchange(&mut node, &mut t, &mut rng) {
+                return;
+            }
+            t += SEC;
+            clock.lock().unwrap().set_true(t);
+            let off = rng.gen_range(0..2_000_000u128) << 32;
+            let origin = Ts { secs: ((t - off) / SEC) as u64, nanos: (((t - off) % SEC) >> 32) as u32 };
+            let m = remote.src.sync(k, false, origin, 0);
+            if node.call(0, Call::EventRx(m.encode(), time_from_units(t))).is_err() {
+                return;
+            }
+        }
+        before_leave = Some(clock.lock().unwrap().log.len());
+        if node.call(0, Call::AnnounceReceiptTimer).is_err() || node.port_state(0) == PortState::Slave {
+            return;
+        }
+        allowed = 1;
+    }
+    let state = node.port_state(0);
+    if state == PortState::Slave || state == PortState::Faulty {
+        return;
+    }
+    let before = before_leave.unwrap_or_else(|| clock.lock().unwrap().log.len());
+    let mut done = 0;
+    for _ in 0..rng.gen_range(2..8) {
+        if !exchange(&mut node, &mut t, &mut rng) {
+            return;
+        }
+        if node.port_state(0) != state {
+            return;
+        }
+        done += 1;
+        if rng.gen_bool(0.5) {
+            let _ = node.call(0, Call::FilterUpdateTimer);
+        }
+    }
+    let _ = done;
+    let log = clock.lock().unwrap().log.clone();
+    let after: Vec<_> = log[before..].iter().filter(|c| !matches!(c.kind, ClockCallKind::SetProperties(_))).collect();
+    rep.ev("port_p2p_nonslave");
+    rep.ev(&format!("port_p2p_nonslave_{}", state_name(state)));
+    if after.len() > allowed {
+        rep.violation(
+            &format!("C13|port|non-slave-p2p-port-commands-clock|{}", if start == 2 { "after-slave" } else { "never-slave" }),
+            &format!("{} clock commands (allowed {allowed}) on a {} P2P port that is not slave: {:?}", after.len(), state_name(state), &after[..after.len().min(6)]),
+            replay.clone(),
+        );
+    }
+    for c in after {
+        if let ClockCallKind::StepClock(_) = &c.kind {
+            rep.violation("C13|port|demobilize-steps", "step_clock on a non-slave P2P port", replay.clone());
+        }
+    }
+}
+
 pub fn run(rep: &mut Report, tier: &str, seed: u64, shard: (u32, u32), replay: Option<&str>) {
     rep.rule = "measurement sequences (<= 64 measurements; offsets on a log lattice 0..+-1e9 s, equal/backward/forward event times, zero-variance sets, alternating kinds, update() calls) x servo configurations x clock behaviours (consistent / lagging / ahead, failing every n-th call), fed to KalmanFilter and BasicFilter through the public Filter trait; distinct = distinct cases; non-trivial = at least one clock command was issued".into();
-    rep.require(&["set_frequency", "step_clock", "demobilize", "port_demobilize"]);
+    rep.require(&["set_frequency", "step_clock", "demobilize", "port_demobilize", "port_p2p_nonslave"]);
     if let Some(path) = replay {
         let v: serde_json::Value = serde_json::from_str(&std::fs::read_to_string(path).unwrap()).unwrap();
         if let Ok(c) = serde_json::from_value::<Case>(v["case"].clone()) {
@@ -505,6 +636,7 @@ pub fn run(rep: &mut Report, tier: &str, seed: u64, shard: (u32, u32), replay: O
         }
         if i % 50 == 0 {
             port_demobilize(rep, rng.gen());
+            port_p2p_nonslave(rep, rng.gen());
         }
     }
 }
